@@ -1097,8 +1097,9 @@ class C07(core.Check):
                   "'first selectable', set_focus (also a stale one) or set_focus_valign request without raising and shows such a "
                   "window.  mouse_press_focuses.  page_down_never_raises: keypress 'page down' (and _keypress_page_down) never "
                   "raises and leaves a ViewOK state over the same widgets (before the repair 1f3edac it was refuted: a candidate "
-                  "completely above the new page; kept as a regression case).  NOT proved (page_up_never_raises_full, stated): "
-                  "'page up' never raises - correspondence and regression oracle only.  "
+                  "completely above the new page; kept as a regression case).  page_up_never_raises, home_end_never_raise: the same for 'page up', 'home', 'end'.  "
+                  "NOT proved: that 'up', 'down' and mouse_event never raise (correspondence + regression "
+                  "oracle with an empty baseline: any exception out of keypress / mouse_event is reported).  "
                   "NOT modelled: widgets with move_cursor_to_coords (real Edit histories are oracle only), widgets whose "
                   "rows()/render()/cursor disagree, wrap-around walkers, maxrow = 0; canvas-level trimming of multi-shard items "
                   "and cache invalidation by walker edits are oracle only; exceptions out of keypress / mouse_event are judged "
